@@ -320,6 +320,27 @@ def build(pkg, sp=None):
             alt_parts.append(("word/numbering2nd.xml", X("w:numbering")))
     cts = pkg.content_types
     overrides = list(cts["overrides"])
+    media = dict(pkg.media)
+    if sp.rename_parts and not pkg.meta.get("no_content_types"):
+        # embedded image parts are located through relationships too: each gets another name (mixed case, another extension) and carries the
+        # content type the package declared for it - by override, else by the extension default as written, else by the common-extension table -
+        # in an Override for the new name; parts whose type the package does not determine keep their names
+        table = {"png": "png", "gif": "gif", "jpeg": "jpeg", "jpg": "jpeg", "tif": "tiff", "tiff": "tiff", "bmp": "bmp"}
+        ov, df = {}, {}
+        for p_, c_ in overrides:
+            ov[p_.lstrip("/")] = c_
+        for e_, c_ in cts["defaults"]:
+            df[e_] = c_
+        for k_, old_name in enumerate(sorted(pkg.media)):
+            ext = old_name.rpartition(".")[2]
+            ctype = ov.get(old_name, df.get(ext, ("image/" + table[ext.lower()]) if ext.lower() in table else None))
+            if ctype is None or not old_name.startswith("word/"):
+                continue
+            new_name = "word/media/Figure%d.Bin" % (k_ + 1)
+            media[new_name] = media.pop(old_name)
+            overrides = [(p_, c_) for p_, c_ in overrides if p_.lstrip("/") != old_name] + [("/" + new_name, ctype)]
+            doc_rels = [(i_, ("/" + new_name if t_.startswith("/") else new_name[len("word/"):])
+                         if t_ in (old_name[len("word/"):], "/" + old_name) else t_, ty_) for i_, t_, ty_ in doc_rels]
     if pkg.embedded_style_map is not None:
         doc_rels.append(("rMammothStyleMap", "/mammoth/style-map", STYLE_MAP_REL))
         overrides.append(("/mammoth/style-map", "text/prs.mammoth.style-map"))
@@ -358,7 +379,7 @@ def build(pkg, sp=None):
         for key in ("document", "styles", "numbering", "footnotes", "endnotes", "comments"):
             if key in roots:
                 entries.append(("word/%s.xml" % key, stale[key]))
-    for name, data in sorted(pkg.media.items()):
+    for name, data in sorted(media.items()):
         entries.append((name, bytes(data)))
     if pkg.embedded_style_map is not None:
         entries.append(("mammoth/style-map", pkg.embedded_style_map.encode("utf-8")))
